@@ -288,3 +288,20 @@ func (c *Core) Schedule() bool {
 func CreationTag(ageSec int64) string {
 	return fmt.Sprintf("%d", time.Now().Unix()-ageSec)
 }
+
+
+// Fence is a concurrency-safe barrier for the application/allocation channel only: it returns when everything the
+// caller sent before has been processed. Used by concurrent clients to bound their backlog.
+func (c *Core) Fence(id string, timeout time.Duration) bool {
+	fid := SentinelPrefix + "f-" + id
+	ch := c.S.NewFence(fid)
+	_ = c.Proxy.UpdateApplication(&si.ApplicationRequest{RmID: c.S.RMID, New: []*si.AddApplicationRequest{{
+		ApplicationID: fid, QueueName: "root.nope", PartitionName: "nope", Ugi: &si.UserGroupInformation{User: "sentinel"},
+	}}})
+	select {
+	case <-ch:
+		return true
+	case <-time.After(timeout):
+		return false
+	}
+}
